@@ -15,7 +15,7 @@
 (*                                                                         *)
 (* One ceremony (epoch 1 = first DKG, epoch 2 = resharing) is modelled.     *)
 (* The gossip packets (proposal / accept / execute) and the kyber bundles   *)
-(* (deal / response) travel as individual messages that are delivered in    *)
+(* (deal / response / justification) travel as individual messages that are delivered in    *)
 (* any order; a copy that reaches a node that already knows the packet is a *)
 (* no-op (checked on the real code by Trace_DKGExec), so the exhaustive     *)
 (* model only keeps copies addressed to nodes that do not know it yet.      *)
@@ -133,11 +133,12 @@ BuildGroup(t, q, rk, now) ==
       \* len(group.GenesisSeed) == 0 => group.GenesisSeed = group.Hash()
       seed |-> IF t.seed = "none" THEN <<"H", members, t.thr, t.genesis, tt, pk>> ELSE <<t.seed>>]
 
-GroupFields == {"members", "thr", "period", "genesis", "transition", "pk", "scheme", "seed"}
+\* named after the fields of key.Group
+GroupFields == {"Nodes", "Threshold", "Period", "GenesisTime", "TransitionTime", "PublicKey", "Scheme", "GenesisSeed"}
 Field(g, f) ==
-  CASE f = "members" -> g.members [] f = "thr" -> g.thr [] f = "period" -> g.period
-    [] f = "genesis" -> g.genesis [] f = "transition" -> g.transition [] f = "pk" -> g.pk
-    [] f = "scheme" -> g.scheme [] f = "seed" -> g.seed
+  CASE f = "Nodes" -> g.members [] f = "Threshold" -> g.thr [] f = "Period" -> g.period
+    [] f = "GenesisTime" -> g.genesis [] f = "TransitionTime" -> g.transition [] f = "PublicKey" -> g.pk
+    [] f = "Scheme" -> g.scheme [] f = "GenesisSeed" -> g.seed
 DiffFields(g1, g2) == {f \in GroupFields : Field(g1, f) # Field(g2, f)}
 
 -----------------------------------------------------------------------------
@@ -193,11 +194,19 @@ ApplyPacket(to, pid, s, t) ==
 
 Deal(n) == <<"D", n>>
 Resp(n) == <<"R", n>>
+Just(n) == <<"J", n>>
 
 DealsKnown(h) == {b[2] : b \in {x \in h : x[1] = "D"}}
 RespsKnown(h) == {b[2] : b \in {x \in h : x[1] = "R"}}
+JustsKnown(h) == {b[2] : b \in {x \in h : x[1] = "J"}}
 
 Missing(t, late) == late \cup Range(t.leaving)
+
+(* A holder whose response is absent counts as a complaint against every     *)
+(* dealer: each timely dealer publishes a justification (the absent          *)
+(* holder's share) when it enters the justification phase.                   *)
+NeedJust(n, t, late) == n \in DealersOf(t) /\ n \notin late /\ (Participants(t) \cap late) # {}
+JustPush(n, t, late) == IF NeedJust(n, t, late) THEN {Just(n)} ELSE {}
 
 (* What a node does, without any timeout, once it knows the bundles in h.    *)
 (* Returns the new phase and the bundles it pushes.                          *)
@@ -213,7 +222,7 @@ Advance(n, ph, h, t, late) ==
               THEN [ph |-> "failed", h |-> h, push |-> {}]     \* >= Thr complaints against itself
             ELSE IF Missing(t, late) = {}
               THEN [ph |-> "done", h |-> h, push |-> {}]       \* no complaint: result from the response phase
-              ELSE [ph |-> "just", h |-> h, push |-> {}]
+              ELSE [ph |-> "just", h |-> h \cup JustPush(n, t, late), push |-> JustPush(n, t, late)]
      ELSE [ph |-> ph, h |-> h, push |-> {}]
 
 (* The protocol starts at the kick-off time: a dealer pushes its deal.       *)
@@ -227,7 +236,8 @@ TimeoutNode(n, ph, h, t, late) ==
   IF ph = "deal"
     THEN LET r == Advance(n, "resp", h \cup {Resp(n)}, t, late)
          IN [ph |-> r.ph, h |-> r.h, push |-> {Resp(n)} \cup r.push]
-  ELSE IF ph = "resp" THEN [ph |-> IF n \in late THEN "failed" ELSE "just", h |-> h, push |-> {}]
+  ELSE IF ph = "resp" THEN IF n \in late THEN [ph |-> "failed", h |-> h, push |-> {}]
+                           ELSE [ph |-> "just", h |-> h \cup JustPush(n, t, late), push |-> JustPush(n, t, late)]
   ELSE IF ph = "just" THEN [ph |-> IF n \in late THEN "failed" ELSE "done", h |-> h, push |-> {}]
   ELSE [ph |-> ph, h |-> h, push |-> {}]
 
@@ -396,6 +406,7 @@ Timeout(n) ==
         /\ \A m \in ExecNodes : Timely \subseteq RespsKnown(hashes[m])
      \/ /\ phase[n] = "just"
         /\ \A m \in ExecNodes : phase[m] \notin {"idle", "setup", "deal", "resp"}
+        /\ \A m \in ExecNodes : {d \in ExecNodes : NeedJust(d, prop, LateSet)} \subseteq JustsKnown(hashes[m])
   /\ LET r == TimeoutNode(n, phase[n], hashes[n], prop, LateSet)
          hs == [hashes EXCEPT ![n] = r.h] IN
      /\ phase' = [phase EXCEPT ![n] = r.ph]
@@ -465,7 +476,7 @@ TypeOK ==
 \* C06, first clause: one group (every field) at all nodes that completed
 Inv_SameGroup == SameGroup(FinOf(fin))
 \* ... the same but for the transition time (what holds even if F9 is real)
-Inv_SameGroupButTransition == SameGroupExcept(FinOf(fin), {"transition"})
+Inv_SameGroupButTransition == SameGroupExcept(FinOf(fin), {"TransitionTime"})
 
 \* every node executes the terms of the one signed proposal
 Inv_SameTerms == \A n \in Nodes : st[n] \in {"Executing", "Done"} => stored[n] = prop
